@@ -532,6 +532,7 @@ theorem entry_safe {κ} (D : Data κ) (h0 : Nat → κ) (E : Entry) (hE : E ∈ 
   | none => rw [hp] at hacc; simp [isOk] at hacc
   | some ps =>
     rw [hp] at hacc
+    simp only at hacc
     cases hx : (Ctl.init E.args E.nself).exec ps with
     | error e => rw [hx] at hacc; simp [isOk] at hacc
     | ok c' =>
@@ -584,7 +585,7 @@ the new best elite, and returns two arrays; the list of entry points is not empt
 theorem nonvacuous :
     (match eAdd.check [false, false, false, false, false, true] with
      | .ok c => decide (c.own 0 = .caller ∧ c.env 10 = some ⟨0, true⟩ ∧ c.stored.length = 2 ∧
-                        c.rets.length = 2 ∧ c.own 23 = .internal)
+                        c.rets.length = 2 ∧ c.own 64 = .internal ∧ c.own 32 = .fresh)
      | .error _ => false) = true ∧ entries.length = 35 ∧ negatives.length = 12 := by
   decide +kernel
 
